@@ -560,11 +560,26 @@ class Analyzer:
                 return self.ev(fn, st, e["a"])
             if kn is False:
                 return self.ev(fn, st, e["e"])
+            ea, eb = e["a"], e["e"]
+            while isinstance(ea, dict) and ea.get("k") == "Cast":
+                ea = ea["e"]
+            while isinstance(eb, dict) and eb.get("k") == "Cast":
+                eb = eb["e"]
+            if c is not None and ea.get("k") == "Bool" and eb.get("k") == "Bool" and ea["b"] != eb["b"]:
+                return c if ea["b"] else p_not(c)   # (x ? true : false) is x
             a = self.ev(fn, st, e["a"])
             b = self.ev(fn, st, e["e"])
             if isinstance(a, Poly) and isinstance(b, Poly):
                 if a == b:
                     return a
+                # if one arm provably dominates the other, the result is (smaller arm) + d with d >= 0
+                for lo_arm, hi_arm, lo_pred in ((a, b, c), (b, a, p_not(c) if c is not None else None)):
+                    if not (a.is_const() and b.is_const()) and self.nonneg(st, hi_arm - lo_arm):
+                        d = self.fresh("selrem")
+                        if c is not None:
+                            st.imps.append(([lo_pred], Pred(("eqp", d, Poly.const(0)))))
+                            st.imps.append(([p_not(lo_pred)], Pred(("eqp", d, hi_arm - lo_arm))))
+                        return lo_arm + Poly.sym(d)
                 s = self.fresh("sel")
                 # s >= min(a,b) if both const
                 if a.is_const() and b.is_const():
@@ -693,7 +708,23 @@ class Analyzer:
         if not ok:
             st.G.append(need)  # assume it held from here on: one report per root cause
 
+    # wrap paths: a constructor that keeps a pointer into the caller's buffer for later reads.
+    # ctor -> (index of the argument giving the extent, divisor, bytes before the extent starts)
+    WRAP_EXTENTS = {"datasketches::bloom_filter_alloc::bloom_filter_alloc": (5, 8, 32)}
+
     def escape(self, fn, st, e, ptrval):
+        name = e.get("ctor") or e.get("callee") or ""
+        import re as _re
+        base = _re.sub(r"<[^<>]*(<[^<>]*>[^<>]*)*>", "", name)
+        if base in self.WRAP_EXTENTS and len(e.get("args", [])) > self.WRAP_EXTENTS[base][0]:
+            idx, div, pre = self.WRAP_EXTENTS[base]
+            ext = self.ev(fn, st, e["args"][idx])
+            if isinstance(ext, Poly) and all(v % div == 0 for v in ext.t.values()):
+                need = Poly({k: v // div for k, v in ext.t.items()}) + pre
+                ok = self.covered(st, need)
+                self.report(fn, e["loc"], "wrap-extent", "discharged" if ok else "violated",
+                            "object keeps a pointer into the caller's buffer and will read bytes [0, %r): size >= {%s}%s" % (need, ", ".join(repr(g) for g in st.G), "" if ok else " does not cover it (a truncated image wraps successfully and later reads run past the buffer)"))
+                return
         self.report(fn, e["loc"], "escape", "unrecognised", "buffer pointer passed to %s" % (e.get("callee") or e.get("ctor")))
 
     READ_FNS = {"datasketches::copy_from_mem"}
@@ -796,6 +827,9 @@ class Analyzer:
             return Poly.sym(self.fresh("ret")) if e.get("t") not in ("void", None) else None
         # generic: evaluate args; buffer pointers escaping into unknown callees
         vals = [self.ev(fn, st, a) for a in args]
+        cv = self.const_call(e, vals)
+        if cv is not None:
+            return Poly.const(cv)
         if cname in ("allocate", "resize", "reserve") and vals:
             self.check_bounded(fn, st, vals[0], e["loc"], "allocation")
         if e.get("obj"):
@@ -809,6 +843,88 @@ class Analyzer:
         if t in ("unsigned long", "unsigned int", "unsigned char", "unsigned short", "int", "long", "unsigned long long"):
             return Poly.sym(self.fresh(cname or "call"))
         return None
+
+    def const_call(self, call, vals):
+        """Constant evaluation of a small pure library function whose decisive branches depend only on constant
+        arguments (e.g. computeLgArrInts(LIST, ..) == LG_INIT_LIST_SIZE).  Returns int or None."""
+        if not (call.get("callee") or "").startswith("datasketches::"):
+            return None
+        callee = self.find_fn(call)
+        if callee is None or callee.get("body") is None or len(callee["params"]) != len(vals):
+            return None
+        env = {}
+        for p, v in zip(callee["params"], vals):
+            if isinstance(v, Poly) and v.is_const():
+                env[p["d"]] = v.const_value()
+
+        def cev(x):
+            while isinstance(x, dict) and x.get("k") == "Cast":
+                if "v" in x:
+                    return x["v"]
+                x = x["e"]
+            if not isinstance(x, dict):
+                return None
+            if "v" in x and x.get("k") not in ("Call", "Assign"):
+                return x["v"]
+            if x.get("k") == "Ref":
+                return env.get(x["d"])
+            if x.get("k") == "Bin" and x["op"] in ("==", "!=", "<", ">", "<=", ">="):
+                a, b = cev(x["l"]), cev(x["r"])
+                if a is None or b is None:
+                    return None
+                return int({"==": a == b, "!=": a != b, "<": a < b, ">": a > b, "<=": a <= b, ">=": a >= b}[x["op"]])
+            return None
+
+        def run(stm):
+            """returns ('ret', v) | ('fall',) | None(unknown)"""
+            k = stm.get("k")
+            if k == "Block":
+                for c in stm["s"]:
+                    r = run(c)
+                    if r is None or r[0] == "ret":
+                        return r
+                return ("fall",)
+            if k == "If":
+                c = cev(stm["c"])
+                if c is None:
+                    return None
+                br = stm["t"] if c else stm.get("e")
+                return run(br) if br else ("fall",)
+            if k == "Return":
+                v = cev(stm.get("e"))
+                return ("ret", v) if v is not None else None
+            return None  # any other statement: not decidable from constants
+        r = run(callee["body"])
+        if r and r[0] == "ret":
+            return r[1]
+        return None
+
+    def ctor_fields(self, fn, st, var, init):
+        """Constructor field summary: a member initialiser `f(param)` (possibly through integral casts) binds
+        <var>.f to the value of the corresponding constructor argument."""
+        cands = self.by_pat.get(init.get("cpat"), [])
+        ctor = None
+        for c in cands:
+            if c.get("kind") == "ctor" and len(c["params"]) == len(init.get("args", [])):
+                ctor = c
+                break
+        if ctor is None:
+            return
+        pidx = {p["d"]: i for i, p in enumerate(ctor["params"])}
+        for ini in ctor.get("inits", []):
+            if "field" not in ini:
+                continue
+            x = ini.get("e")
+            while isinstance(x, dict) and x.get("k") == "Cast":
+                x = x["e"]
+            if isinstance(x, dict) and x.get("k") == "Construct" and len(x.get("args", [])) == 1:
+                x = x["args"][0]
+                while isinstance(x, dict) and x.get("k") == "Cast":
+                    x = x["e"]
+            if isinstance(x, dict) and x.get("k") == "Ref" and x.get("d") in pidx:
+                val = self.ev(fn, st, init["args"][pidx[x["d"]]])
+                if isinstance(val, Poly):
+                    st.mem["%s@%d.%s" % (var["n"], var["d"], ini["field"])] = val
 
     def name_of(self, e):
         while e["k"] == "Cast":
@@ -906,6 +1022,8 @@ class Analyzer:
                             if isinstance(n0, Poly) and init.get("ptypes") and init["ptypes"][0] in ("unsigned long",):
                                 self.check_bounded(fn, st, n0, init["loc"], "allocation")
                                 val = ("vec", n0)
+                        if init["k"] == "Construct" and (init.get("ctor") or "").startswith("datasketches::"):
+                            self.ctor_fields(fn, st, v, init)
                     st.env[v["d"]] = val
                 out.append((st, "fall"))
             return out
@@ -996,6 +1114,23 @@ class Analyzer:
         return {d: v.off for d, v in st.env.items() if isinstance(v, Ptr)}
 
     def subst_state(self, st, name, repl):
+        if isinstance(name, tuple):
+            sub = lambda p: p.subst_mono(name, repl)
+            for d, v in list(st.env.items()):
+                if isinstance(v, Ptr):
+                    st.env[d] = Ptr(sub(v.off), v.stride)
+                elif isinstance(v, Poly):
+                    st.env[d] = sub(v)
+                elif isinstance(v, tuple) and v and v[0] == "vec" and isinstance(v[1], Poly):
+                    st.env[d] = ("vec", sub(v[1]))
+            for kx, v in list(st.mem.items()):
+                if isinstance(v, Poly):
+                    st.mem[kx] = sub(v)
+            st.G = [sub(g) for g in st.G]
+            for kx, v in list(st.eqs.items()):
+                if isinstance(v, Poly):
+                    st.eqs[kx] = sub(v)
+            return
         for d, v in list(st.env.items()):
             if isinstance(v, Ptr):
                 st.env[d] = Ptr(v.off.subst(name, repl), v.stride)
@@ -1007,6 +1142,9 @@ class Analyzer:
             if isinstance(v, Poly):
                 st.mem[kx] = v.subst(name, repl)
         st.G = [g.subst(name, repl) for g in st.G]
+        for kx, v in list(st.eqs.items()):
+            if isinstance(v, Poly):
+                st.eqs[kx] = v.subst(name, repl)
 
     def state_symbols(self, st):
         syms = set()
@@ -1090,6 +1228,10 @@ class Analyzer:
             if len(bs) == 1 and bound == Poly.sym(bs[0]):
                 dsym = self.fresh("rem", loc)
                 self.subst_state(it, bs[0], Poly.sym(isym) + 1 + Poly.sym(dsym))
+            elif len(bound.t) == 1 and list(bound.t.values()) == [1] and len(next(iter(bound.t))) > 1:
+                # bound is a single product of symbols (e.g. num_buckets*num_hashes): treat the product as one quantity
+                dsym = self.fresh("rem", loc)
+                self.subst_state(it, next(iter(bound.t)), Poly.sym(isym) + 1 + Poly.sym(dsym))
             if ivar is not None:
                 it.env[ivar] = Poly.sym(isym)
             for d, c in moving.items():
